@@ -458,3 +458,11 @@ package factstore
 //@ func (sc SimpleColumn) ReadInto(r, store)
 //@   guard call Add: rangeindex >= 0 && rangeindex < len(preds) && (preds[rangeindex].Arity == 0 ==> predNumFacts[rangeindex] > 0)
 //@   loop 1 invariant hdrOK(preds, predNumFacts)
+
+// With the deterministic option the order of predicates and of facts does not depend on the store's enumeration
+// order: both comparison functions are total on entries that print differently.
+//@ func (sc SimpleColumn) WriteTo(store, w)
+//@   requires store != nil
+//@   guard sort 1: forall i int, j int :: 0 <= i && i < len(preds) && 0 <= j && j < len(preds) && preds[i] != preds[j] ==> less(i, j) || less(j, i)
+//@   guard sort 2: forall i int, j int :: 0 <= i && i < len(facts) && 0 <= j && j < len(facts) && facts[i].String() != facts[j].String() ==> less(i, j) || less(j, i)
+//@   opt nosafety
